@@ -67,7 +67,8 @@ def enc_dec(kind, v):
     return pd.Series(list(v), index=[(7 * i + 3) % 11 for i in range(len(v))])      # non-monotonic labels
 
 
-def enc_rew(kind, v):
+def enc_rew(kind, v, scale=1):
+    v = [x * scale for x in v]
     if kind == "list_int":
         return [int(x) for x in v]
     if kind == "list_float":
@@ -162,7 +163,7 @@ def policy_objects(ln, nn):
     name, kw = A.LPS[ln]
     kw = dict(kw)
     if "binarizer" in kw:
-        kw["binarizer"] = ops.BINARIZERS[kw["binarizer"]]
+        kw["binarizer"] = ops.bin_ge2          # with doubled rewards (see reward_scale): the conversion changes every value
     lp = getattr(LearningPolicy, name)(**kw)
     params = {}
     npol = None
@@ -201,7 +202,8 @@ def scenario(ln, nn, seed, assign, labels="int"):
     arms.pop()
     outs = []
     d = w.add("fit decisions", enc_dec(assign["fit_d"], FIT_D))
-    r = w.add("fit rewards", enc_rew(assign["fit_r"], FIT_R))
+    rs = 2 if ln == "tsb" else 1            # Thompson with a binarizer: rewards 0 / 2, so that converting is visible
+    r = w.add("fit rewards", enc_rew(assign["fit_r"], FIT_R, rs))
     if cf:
         mab.fit(d, r)
     else:
@@ -213,7 +215,7 @@ def scenario(ln, nn, seed, assign, labels="int"):
     if list(arms) != [1, 2]:
         modified.append("add_arm changed the caller's arm list to %r" % (arms,))
     d2 = w.add("partial_fit decisions", enc_dec(assign["pf_d"], PF_D))
-    r2 = w.add("partial_fit rewards", enc_rew(assign["pf_r"], PF_R))
+    r2 = w.add("partial_fit rewards", enc_rew(assign["pf_r"], PF_R, rs))
     if cf:
         mab.partial_fit(d2, r2)
     else:
@@ -269,7 +271,8 @@ def scenario_labels(ln, nn, seed, assign, mp):
         return pd.Series(v, index=[(7 * i + 3) % 11 for i in range(len(v))])
     outs = []
     d = w.add("fit decisions", dec(assign["fit_d"], FIT_D))
-    r = w.add("fit rewards", enc_rew(assign["fit_r"], FIT_R))
+    rs = 2 if ln == "tsb" else 1            # Thompson with a binarizer: rewards 0 / 2, so that converting is visible
+    r = w.add("fit rewards", enc_rew(assign["fit_r"], FIT_R, rs))
     if cf:
         mab.fit(d, r)
     else:
@@ -277,7 +280,7 @@ def scenario_labels(ln, nn, seed, assign, mp):
     check("fit")
     mab.add_arm(mp[3])
     d2 = w.add("partial_fit decisions", dec(assign["pf_d"], PF_D))
-    r2 = w.add("partial_fit rewards", enc_rew(assign["pf_r"], PF_R))
+    r2 = w.add("partial_fit rewards", enc_rew(assign["pf_r"], PF_R, rs))
     if cf:
         mab.partial_fit(d2, r2)
     else:
